@@ -24,7 +24,16 @@ func init() {
 			return
 		}
 		t := time.Now()
+		exploreNoSleep = os.Getenv("NOSLEEP") != ""
+		exploreNoCache = os.Getenv("NOCACHE") != ""
 		res := exploreHarness(h, bound, time.Now().Add(time.Hour), max)
+		if kf := os.Getenv("KEYFILE"); kf != "" {
+			f, _ := os.Create(kf)
+			for _, k := range res.TraceKeys {
+				fmt.Fprintf(f, "%x\n", k)
+			}
+			f.Close()
+		}
 		fmt.Fprintf(os.Stdout, "%+v\noutcomes=%v traces=%d nontriv=%d classes=%d %.1fs\n", res.Stats, res.Outcomes, res.Traces, res.Nontriv, len(res.Classes), time.Since(t).Seconds())
 		for k, v := range res.Classes {
 			fmt.Println("  class", v, k)
